@@ -318,11 +318,19 @@ Section Modes.
   Definition guard_F09c (g : gen_input) : bool := negb (g_core_given g).
   (* no other client is registered in the core this run reads *)
   Definition guard_F09d (g : gen_input) (found : registry) : bool :=
-    negb (g_shared g) || core_inside_out g || forallb (fun kv => str_eqb (fst kv) (g_client g)) found.
+    negb (g_shared g) || core_inside_out g ||
+    match found with
+    | [] => true
+    | [(k, _)] => str_eqb k (g_client g)
+    | _ => false
+    end.
   (* no two operations share a method name (then de-duplication changes nothing, in particular it is idempotent) *)
   Fixpoint nodupb (l : list str) : bool :=
     match l with [] => true | x :: r => negb (mem_str x r) && nodupb r end.
   Definition guard_F09e (g : gen_input) : bool := nodupb (map san (map snd (g_ops g))).
   Definition guard_modes (g : gen_input) (found : registry) : bool :=
     guard_F09c g && guard_F09d g found && guard_F09e g.
+  (* layout sanity (not a finding): no two emitted files share a path — false e.g. when core_package equals
+     the output package, where the two __init__.py are one file and the list model is not exact *)
+  Definition wf_layout (g : gen_input) : bool := wf_tree (tree_temp g).
 End Modes.
